@@ -75,12 +75,22 @@ func runC18(seed int64, tier string, outDir string) *result {
 	}
 	keyBytes := make([]byte, 32)
 	rng.Read(keyBytes)
-	key, _ := enc.NewSecretbox(keyBytes)
+	// the writer builds its key from a scratch buffer and wipes the buffer afterwards (ordinary key
+	// hygiene); the reader "with the same key" is another codec instance with an equal key
+	scratch := append([]byte{}, keyBytes...)
+	key, _ := enc.NewSecretbox(scratch)
+	for i := range scratch {
+		scratch[i] = 0
+	}
+	readerKey, _ := enc.NewSecretbox(append([]byte{}, keyBytes...))
 	other := append([]byte{}, keyBytes...)
 	other[0] ^= 0x80
 	otherKey, _ := enc.NewSecretbox(other)
+	zeroKey, _ := enc.NewSecretbox(make([]byte, 32))
 	lio := dio.ApplyOptions(&cbor.Options{LinkKey: key})
+	rio := dio.ApplyOptions(&cbor.Options{LinkKey: readerKey})
 	oio := dio.ApplyOptions(&cbor.Options{LinkKey: otherKey})
+	zio := dio.ApplyOptions(&cbor.Options{LinkKey: zeroKey})
 	idents := c08Identities("c18-a", "c18-b")
 	provider := idents[0].Provider
 	api, d := newAPI()
@@ -96,6 +106,7 @@ func runC18(seed int64, tier string, outDir string) *result {
 
 	// the monitors for one block written with the key
 	checkBlock := func(kind string, oe *entry.Entry, links []cid.Cid) {
+		presigned := strings.HasPrefix(kind, "presigned")
 		res.Evaluations++
 		raw := d.raw(oe.Hash)
 		desc := c08Describe(kind, "link", oe, oe.Hash, raw)
@@ -132,7 +143,7 @@ func runC18(seed int64, tier string, outDir string) *result {
 			}
 		}
 		// (c) readers
-		same, err := entry.FromMultihashWithIO(ctx, api, oe.Hash, provider, lio)
+		same, err := entry.FromMultihashWithIO(ctx, api, oe.Hash, provider, rio)
 		if err != nil {
 			fail("readers", "C18:same-key-read-error", err.Error(), desc)
 			return
@@ -160,6 +171,14 @@ func runC18(seed int64, tier string, outDir string) *result {
 				stats["other-key-read-error"]++
 			}
 		}
+		if zk, err := entry.FromMultihashWithIO(ctx, api, oe.Hash, provider, zio); len(links) > 0 && err == nil && (len(zk.GetNext()) != 0 || len(zk.GetRefs()) != 0) {
+			fail("readers", "C18:other-key-links-visible", "a reader with the all-zero key obtains links", desc)
+		}
+		if presigned {
+			// written without its signature (CreateEntryOptions.PreSigned): the secrecy clauses apply, verification does not
+			stats["presigned-blocks"]++
+			return
+		}
 		// (d) verification: the entry as created and as read back with the key
 		if len(links) > 0 {
 			stats["entries-with-links"]++
@@ -171,7 +190,7 @@ func runC18(seed int64, tier string, outDir string) *result {
 			}
 			fail("verify", key, "created entry: "+err.Error(), desc)
 		}
-		if err := same.(*entry.Entry).Verify(provider, lio); err != nil {
+		if err := same.(*entry.Entry).Verify(provider, rio); err != nil {
 			key := "C18:entry-does-not-verify"
 			if len(links) > 0 {
 				key = "C18:link-entry-does-not-verify"
@@ -213,6 +232,16 @@ func runC18(seed int64, tier string, outDir string) *result {
 		var links []cid.Cid
 		links = append(append(links, oe.Next...), oe.Refs...)
 		checkBlock("direct", oe, links)
+		if n%3 == 0 {
+			// the same kind of entry stored through the PreSigned path of the keyed codec
+			pin := &entry.Entry{Payload: append([]byte("ps-"), p...), LogID: "c18", Next: next, Refs: refs, Clock: in.Clock}
+			if pout, err := entry.CreateEntryWithIO(ctx, api, id, pin, &iface.CreateEntryOptions{PreSigned: true}, lio); err == nil {
+				pe := pout.(*entry.Entry)
+				var pl []cid.Cid
+				pl = append(append(pl, pe.Next...), pe.Refs...)
+				checkBlock("presigned", pe, pl)
+			}
+		}
 
 		// clear-part independence: the same entry with other links
 		if n%4 == 0 {
